@@ -113,7 +113,8 @@ type Replica struct {
 	PerHeight    bool // record a dump hash after every commit
 	StallBudget  int  // failed attempts at one height tolerated before giving up
 	DisableForks bool
-	SyncVersion  int // 0 = leave pegnet.PegnetdSyncVersion as is
+	SyncVersion  int  // build sync-version of the next lifetime
+	SetVersion   bool // apply SyncVersion (otherwise pegnet.PegnetdSyncVersion is left as is)
 
 	// observations
 	Heights   map[uint32]*Dump // dump recorded after the commit of height h
@@ -175,7 +176,7 @@ func (r *Replica) dsn() string {
 func (r *Replica) Start() error {
 	r.Lifetimes++
 	r.Exit, r.ExitStack = "", ""
-	if r.SyncVersion != 0 {
+	if r.SetVersion {
 		pegnet.PegnetdSyncVersion = r.SyncVersion
 	}
 	r.ctx, r.cancel = context.WithCancel(context.Background())
